@@ -378,20 +378,24 @@ pub uninterp spec fn checksum_update(before: SecretV, after: SecretV) -> bool;
 #[verifier::external_body]
 pub struct ExternalFileManager { _p: () }
 impl ExternalFileManager {
+    /// the file mutation events appended to the file event log so far
+    pub uninterp spec fn logged(&self) -> Seq<FileMutationEvent>;
     /// file_manager.rs:149 -> `write_update_checksum` (:410): `id = *secret_data.id()` (:421),
     /// `new_meta = secret_data.meta().clone()` (:514), `Some((id, SecretRow::new(id, new_meta,
     /// new_secret)))` (:542): the row to write back has the same id and the same meta data
     #[verifier::external_body]
     pub fn create_files(&mut self, summary: &Summary, secret_data: SecretRow, file_progress: &mut Option<FileProgressSender>)
         -> (r: ClResult<(Vec<FileMutationEvent>, Option<(SecretId, SecretRow)>)>)
-        ensures r matches Ok((_, Some((wid, wrow)))) ==> wid@ == secret_data.id@ && wrow.id@ == secret_data.id@ && wrow.meta@ == secret_data.meta@
+        ensures final(self).logged() == old(self).logged(),
+            r matches Ok((_, Some((wid, wrow)))) ==> wid@ == secret_data.id@ && wrow.id@ == secret_data.id@ && wrow.meta@ == secret_data.meta@
             && checksum_update(secret_data.secret@, wrow.secret@),
     { unimplemented!() }
     /// file_manager.rs:160 `update_files`: the write-back row comes from `write_update_checksum(new_summary, new_secret, ..)`
     #[verifier::external_body]
     pub fn update_files(&mut self, old_summary: &Summary, new_summary: &Summary, old_secret: &SecretRow, new_secret: SecretRow, file_progress: &mut Option<FileProgressSender>)
         -> (r: ClResult<(Vec<FileMutationEvent>, Option<(SecretId, SecretRow)>)>)
-        ensures r matches Ok((_, Some((wid, wrow)))) ==> wid@ == new_secret.id@ && wrow.id@ == new_secret.id@ && wrow.meta@ == new_secret.meta@
+        ensures final(self).logged() == old(self).logged(),
+            r matches Ok((_, Some((wid, wrow)))) ==> wid@ == new_secret.id@ && wrow.id@ == new_secret.id@ && wrow.meta@ == new_secret.meta@
             && checksum_update(new_secret.secret@, wrow.secret@),
     { unimplemented!() }
     /// file_manager.rs:232 `delete_files`
@@ -404,9 +408,12 @@ impl ExternalFileManager {
     pub fn move_files(&self, secret_data: &SecretRow, old_vault_id: &VaultId, new_vault_id: &VaultId, old_secret_id: &SecretId, new_secret_id: &SecretId,
         targets: Option<Vec<&Secret>>, file_progress: &mut Option<FileProgressSender>) -> (r: ClResult<Vec<FileMutationEvent>>)
     { unimplemented!() }
-    /// file_manager.rs:44 `append_file_mutation_events`: appends to the file event log
+    /// file_manager.rs:44 `append_file_mutation_events`: unit filemgr [appends_exactly_the_events], [failed_append_changes_nothing]
     #[verifier::external_body]
     pub fn append_file_mutation_events(&mut self, events: &[FileMutationEvent]) -> (r: ClResult<()>)
+        ensures
+            r is Ok ==> final(self).logged() == old(self).logged() + events@,
+            r is Err ==> final(self).logged() == old(self).logged(),
     { unimplemented!() }
 }
 
@@ -425,4 +432,6 @@ pub ghost struct StoreV {
     pub sums: Seq<Summary>,
     pub cur: Option<Summary>,
     pub authed: bool,
+    /// the file mutation events appended to the file event log so far (the file manager's `logged()`)
+    pub flog: Seq<FileMutationEvent>,
 }
